@@ -42,6 +42,15 @@ def _build(layout, n, order):
     if layout == "one-chain":
         seq = ["CYS"] * n
         return fixtures.peptide_lines(seq, "A", 1), [("A", 1 + i) for i in range(n)]
+    if layout == "insertion-codes":
+        # antibody-style numbering: the cysteines share ONE residue number and differ in their insertion code only
+        out = []
+        for ln in fixtures.peptide_lines(["CYS"] * n, "A", 1):
+            if ln.startswith(("ATOM", "HETATM")):
+                i = int(ln[22:26]) - 1
+                ln = ln[:22] + f"{12:>4d}" + "ABCDEFG"[i] + ln[27:]
+            out.append(ln)
+        return out, [("A", 12, "ABCDEFG"[i]) for i in range(n)]
     if layout == "spaced":
         seq = []
         keys = []
@@ -74,8 +83,9 @@ def h_bridges(eng, layout, n, order):
     lines, keys = _build(layout, n, order)
     bm, _defn = fixtures.prepared(lines)
     cys = []
-    for ch, num in keys:
-        res = [r for r in bm.residues if r.chain_id == ch and r.res_seq == num]
+    for key in keys:
+        ch, num = key[:2]
+        res = [r for r in bm.residues if r.chain_id == ch and r.res_seq == num and (len(key) < 3 or r.ins_code == key[2])]
         assert len(res) == 1 and isinstance(res[0], aa.CYS), (layout, ch, num)
         cys.append(res[0])
     # symbolic metric on the sulfurs
@@ -278,6 +288,8 @@ def obligations(tier):
         for order in orders:
             tag = "".join(map(str, order))
             obs.append(Obligation(f"bridges-{layout}-n{n}-o{tag}", h_bridges, {"layout": layout, "n": n, "order": list(order)}, group="bridges", time_cap=2400, max_paths=100000))
+    for n in (2, 3) if tier == "quick" else (2, 3, 4):
+        obs.append(Obligation(f"bridges-insertion-codes-n{n}", h_bridges, {"layout": "insertion-codes", "n": n, "order": list(range(n))}, group="bridges", time_cap=2400, max_paths=100000))
     for ff in ("amber", "parse") if tier == "quick" else ("amber", "parse", "charmm"):
         obs.append(Obligation(f"pipeline-pair-{ff}", h_pipeline_pair, dict(ff=ff), group="pipeline-pair", time_cap=1500))
     for ff, pka, lig in ((0, 0, 0), (1, 1, 0)) if tier == "quick" else [(f, p, l) for f in (0, 1, 2) for p in (0, 1) for l in (0, 1)]:
